@@ -227,7 +227,13 @@ def strat_stream(draw, tier):
     n = draw(msg_len_strategy(64, tier))
     c = {"spec": spec, "pt": draw(gen.data_of(st.just(n)))}
     if spec["cipher"] == "ChaCha20":
-        c["seek"] = draw(st.one_of(st.none(), st.integers(0, 300), st.sampled_from([63, 64, 65, 64 * 255, 64 * 256 + 1, (1 << 32) * 64 - 200 if len(spec["nonce"]) == 8 else 1 << 20, (1 << 38) - 5000])))
+        top = 70 if len(spec["nonce"]) == 8 else 38         # the key stream has 2^64 (8-byte nonce) or 2^32 blocks of 64 bytes
+        c["seek"] = draw(st.one_of(st.none(), st.integers(0, 300),
+                                   st.sampled_from([63, 64, 65, 64 * 255, 64 * 256 + 1, (1 << 32) * 64 - 200 if top == 70 else 1 << 20, (1 << 38) - 5000]),
+                                   # any position, and the word boundaries of the block counter (2^32-1, 2^32, 2^32+1 blocks; 2^63; the last blocks)
+                                   st.integers(0, (1 << top) - (1 << 21)),
+                                   st.sampled_from([64 * ((1 << 32) - 1), 64 * (1 << 32) + 5, 64 * ((1 << 32) + 1), 64 * ((1 << 33) - 1) + 7, 64 * (1 << 63),
+                                                    (1 << 70) - (1 << 21)] if top == 70 else [(1 << 37) + 3, (1 << 38) - (1 << 21)])))
     return c
 
 
